@@ -88,7 +88,7 @@ type c08CrowdCase struct {
 	along   []c08Role // started after the holders, not expected to be held back by the limit
 	late    []c08Role // started right after the victims were cancelled, before anything is released
 	kind    string    // canceled | deadline
-	rev     bool   // cancel the victims in reverse order of arrival
+	rev     bool      // cancel the victims in reverse order of arrival
 }
 
 func (c c08CrowdCase) String() string {
